@@ -23,6 +23,7 @@ import (
 	"time"
 
 	"github.com/bitcoin-sv/block-headers-service/config"
+	"github.com/bitcoin-sv/block-headers-service/domains"
 	"github.com/bitcoin-sv/block-headers-service/internal/chaincfg"
 	"github.com/bitcoin-sv/block-headers-service/internal/wire"
 	"github.com/bitcoin-sv/block-headers-service/service"
@@ -101,6 +102,15 @@ func c15Session(srv *p2p.VerifC06Server, btcnet wire.BitcoinNet, id int, seq uin
 	if err := wire.WriteMessage(nodeSide, wire.NewMsgVerAck(), pver, btcnet); err != nil {
 		return err
 	}
+	// every other session also asks for headers: the peer's input handler then consults the sync manager
+	// (IsCurrent) from its own goroutine while other peers come and go
+	if seq%2 == 0 {
+		gh := wire.NewMsgGetHeaders()
+		gh.ProtocolVersion = pver
+		_ = gh.AddBlockLocatorHash(chaincfg.MainNetParams.GenesisHash)
+		_ = nodeSide.SetWriteDeadline(time.Now().Add(2 * time.Second))
+		_ = wire.WriteMessage(nodeSide, gh, pver, btcnet)
+	}
 	time.Sleep(linger)
 	return nil
 }
@@ -113,10 +123,17 @@ func runC15Peers(c *Ctx) error {
 	defer s.Close()
 	lg := zerolog.Nop()
 	prm := chaincfg.MainNetParams
-	cps := prm.Checkpoints
+	// a "current" service (its tip is recent and not below the last checkpoint): only then do getheaders requests of
+	// peers reach the part of the sync manager that looks at the sync peer.  One checkpoint = genesis; one header
+	// stamped now on top of it.
+	cps := []chaincfg.Checkpoint{{Height: 0, Hash: prm.GenesisHash}}
 	config.Checkpoints = cps
 	if config.TimeSource == nil {
 		config.TimeSource = config.NewMedianTime(&lg)
+	}
+	fresh := domains.BlockHeaderSource{Version: 1, PrevBlock: *prm.GenesisHash, MerkleRoot: merkleBytes(4242), Timestamp: time.Now(), Bits: bitsW2, Nonce: 1}
+	if _, err := s.Services.Chains.Add(fresh); err != nil {
+		return fmt.Errorf("c15peers: storing a current tip: %w", err)
 	}
 	// the shared map, wired as in cmd/main.go: NetworkService and SyncManager get the same map value
 	peers := map[*peerpkg.Peer]*peerpkg.SyncState{}
